@@ -62,7 +62,12 @@ func (a *Asm) Bytes() []byte {
 // LegacyTokenInit is the creation code of a minimal ERC-20 of the pre-standard kind: transfer(to, amount) answers
 // false instead of reverting when the sender's balance does not cover the amount. balances[a] lives in storage slot a,
 // the deployer receives the whole (constant) supply of 1000 units.
-func LegacyTokenInit(name, symbol string) []byte {
+func LegacyTokenInit(name, symbol string) []byte { return legacyTokenInit(name, symbol, false) }
+
+// MortalTokenInit is LegacyTokenInit plus kill(): the contract destroys itself (anyone may call it).
+func MortalTokenInit(name, symbol string) []byte { return legacyTokenInit(name, symbol, true) }
+
+func legacyTokenInit(name, symbol string, mortal bool) []byte {
 	a := NewAsm()
 	a.Push(0).Op(0x35).Push(0xe0).Op(0x1c) // CALLDATALOAD(0) >> 224
 	for _, m := range []struct {
@@ -74,8 +79,14 @@ func LegacyTokenInit(name, symbol string) []byte {
 	} {
 		a.Op(0x80).Push(m.sel[:]...).Op(0x14).PushLabel(m.label).Op(0x57) // DUP1 PUSH4 EQ PUSH2 JUMPI
 	}
+	if mortal {
+		a.Op(0x80).Push(0x41, 0xc0, 0xe1, 0xb5).Op(0x14).PushLabel("kill").Op(0x57)
+	}
 	a.Push(0).Op(0x80, 0xfd) // unknown selector: revert
 
+	if mortal {
+		a.Label("kill").Op(0x33, 0xff) // CALLER SELFDESTRUCT
+	}
 	a.Label("transfer")
 	a.Push(0x24).Op(0x35)          // [amt]
 	a.Op(0x33, 0x54)               // CALLER SLOAD      [bal, amt]
